@@ -266,4 +266,11 @@ def execute(stim):
     header = {'blocks': hdr, 'names': names, 'sinit': sinit, 'nblocks': info.get('nblocks', -1),
               'noalarm': bool(acyclic and total is not None and total <= 3 * len(hdr)),
               'acyclic': acyclic, 'paths': total if total is not None else -1}
+    # values that grew (through feedback events) beyond what the integer codes can carry: the
+    # run is judged up to that point only
+    for k, e in enumerate(log):
+        vals = [e.get('v')] + list(e.get('outs', []))
+        if -999999 in vals:
+            del log[k:]
+            break
     return {'hdr': header, 'ev': log}
